@@ -263,7 +263,7 @@ func classifyParam(v *types.Var, idx int, nNat *int, nVal *int) (role, name stri
 	if isBool(t) && (v.Name() == "optimizeEmpty" || v.Name() == "legacyTypeNames") {
 		return "flag", "flag:" + v.Name()
 	}
-	if b, ok := t.(*types.Basic); ok && b.Kind() == types.Uint8 {
+	if b, ok := t.(*types.Basic); ok && b.Kind() == types.Uint8 && !isBasictl(v.Pkg()) {
 		// a by-value byte parameter is the field-mask block handed to a variant/fields reader
 		return "other", "p:block"
 	}
